@@ -10,8 +10,8 @@ Objects:
 
 Theorems (all for EVERY argument record `a : Args`, unbounded integer fields — in particular for
 records that violate several preconditions at once, which is where the ORDER of the tests shows):
-  * `argchain_<routine>_spec`     chain = spec, four precisions            (gssv gsisx gstrs gsrfs gscon gsequ)
-  * `argchain_<routine>_partial`  chain = spec under `<routine>_agrees`    (gssvx sp_trsv sp_gemv — the
+  * `argchain_<routine>_spec`     chain = spec, four precisions            (gssv gssvx gstrs gsrfs gscon gsequ)
+  * `argchain_<routine>_partial`  chain = spec under `<routine>_agrees`    (gsisx sp_trsv sp_gemv — the
                                    chain of the unchanged tree deviates from the header, see below)
   * `argchain_types_agree`        the s/d/c/z chains are one chain up to the Dtype tag (all nine routines)
   * `argchain_errparam`           the number handed to input_error is -info (the position)
@@ -24,13 +24,11 @@ against the new text.
 
 Deviations of the unchanged tree from the documentation (kept OUT of the spec, stated as hypotheses):
 
-/- argchain_gssvx_goal :  ∀ a, check_[sdcz]gssvx a = specInfo_gssvx dt a
-   FALSE today.  (i) `[sdcz]gssvx` tests X with a separate `if`, not chained to the tests of lwork and B,
-   so a violation found at X overwrites -12 / -13:  B->ncol = -1 with X->ncol = 1 returns -14 (the
-   mismatch clause of X fires) where the first offending argument is 13.  (ii) B (resp. X) is not
-   examined at all when B->ncol = 0 (resp. X->ncol = 0): a wrong tag or a short leading dimension of
-   B, or X->ncol = 0 with B->ncol > 0, is accepted.  `[sdcz]gsisx` has the chained form and satisfies
-   the full statement (`argchain_gsisx_spec`). -/
+/- argchain_gsisx_goal :  ∀ a, check_[sdcz]gsisx a = specInfo_gsisx dt a
+   FALSE today, in the direction C18 does not speak about: `[sdcz]gsisx` examines the description of B
+   (resp. X) even when B->ncol = 0 (resp. X->ncol = 0) although the header says that B is then not
+   used, i.e. it rejects calls the header allows.  `[sdcz]gssvx` (since the fix: commits 533c341,
+   cb8543f) satisfies the full statement (`argchain_gssvx_spec`). -/
 /- argchain_sp_trsv_goal : ∀ a, check_sp_[sdcz]trsv a = specInfo_sp_trsv dt a
    FALSE today: the header documents 'u','l','n','t','c' but only upper case is accepted, and the
    documented type tags of L and U are not tested. -/
@@ -49,12 +47,12 @@ theorem argchain_gssv_spec (a : Args) :
   simp only [specInfo_gssv, spec_gssv]
   refine ⟨?_, ?_, ?_, ?_⟩ <;> argchain_gen_unfold <;> argchain_unfold <;> argchain_cascade
 
-theorem argchain_gsisx_spec (a : Args) :
-    check_sgsisx a = specInfo_gsisx SLU_S a ∧
-    check_dgsisx a = specInfo_gsisx SLU_D a ∧
-    check_cgsisx a = specInfo_gsisx SLU_C a ∧
-    check_zgsisx a = specInfo_gsisx SLU_Z a := by
-  simp only [specInfo_gsisx, spec_gsisx, spec_gssvx]
+theorem argchain_gssvx_spec (a : Args) :
+    check_sgssvx a = specInfo_gssvx SLU_S a ∧
+    check_dgssvx a = specInfo_gssvx SLU_D a ∧
+    check_cgssvx a = specInfo_gssvx SLU_C a ∧
+    check_zgssvx a = specInfo_gssvx SLU_Z a := by
+  simp only [specInfo_gssvx, spec_gssvx]
   refine ⟨?_, ?_, ?_, ?_⟩ <;> argchain_gen_unfold <;> argchain_unfold <;> argchain_cascade
 
 theorem argchain_gstrs_spec (a : Args) :
@@ -89,28 +87,13 @@ theorem argchain_gsequ_spec (a : Args) :
   simp only [specInfo_gsequ, spec_gsequ]
   refine ⟨?_, ?_, ?_, ?_⟩ <;> argchain_gen_unfold <;> argchain_unfold <;> argchain_cascade
 
-theorem argchain_gssvx_partial_s (a : Args) (h : gssvx_agrees SLU_S a) : check_sgssvx a = specInfo_gssvx SLU_S a := by
-  simp only [specInfo_gssvx, spec_gssvx]
-  argchain_gen_unfold; argchain_unfold; argchain_cascade
-
-theorem argchain_gssvx_partial_d (a : Args) (h : gssvx_agrees SLU_D a) : check_dgssvx a = specInfo_gssvx SLU_D a := by
-  simp only [specInfo_gssvx, spec_gssvx]
-  argchain_gen_unfold; argchain_unfold; argchain_cascade
-
-theorem argchain_gssvx_partial_c (a : Args) (h : gssvx_agrees SLU_C a) : check_cgssvx a = specInfo_gssvx SLU_C a := by
-  simp only [specInfo_gssvx, spec_gssvx]
-  argchain_gen_unfold; argchain_unfold; argchain_cascade
-
-theorem argchain_gssvx_partial_z (a : Args) (h : gssvx_agrees SLU_Z a) : check_zgssvx a = specInfo_gssvx SLU_Z a := by
-  simp only [specInfo_gssvx, spec_gssvx]
-  argchain_gen_unfold; argchain_unfold; argchain_cascade
-
-theorem argchain_gssvx_partial (a : Args) :
-    (gssvx_agrees SLU_S a → check_sgssvx a = specInfo_gssvx SLU_S a) ∧
-    (gssvx_agrees SLU_D a → check_dgssvx a = specInfo_gssvx SLU_D a) ∧
-    (gssvx_agrees SLU_C a → check_cgssvx a = specInfo_gssvx SLU_C a) ∧
-    (gssvx_agrees SLU_Z a → check_zgssvx a = specInfo_gssvx SLU_Z a) :=
-  ⟨argchain_gssvx_partial_s a, argchain_gssvx_partial_d a, argchain_gssvx_partial_c a, argchain_gssvx_partial_z a⟩
+theorem argchain_gsisx_partial (a : Args) :
+    (gsisx_agrees SLU_S a → check_sgsisx a = specInfo_gsisx SLU_S a) ∧
+    (gsisx_agrees SLU_D a → check_dgsisx a = specInfo_gsisx SLU_D a) ∧
+    (gsisx_agrees SLU_C a → check_cgsisx a = specInfo_gsisx SLU_C a) ∧
+    (gsisx_agrees SLU_Z a → check_zgsisx a = specInfo_gsisx SLU_Z a) := by
+  simp only [specInfo_gsisx, spec_gsisx, spec_gssvx]
+  refine ⟨?_, ?_, ?_, ?_⟩ <;> intro h <;> argchain_gen_unfold <;> argchain_unfold <;> argchain_cascade
 
 theorem argchain_sp_trsv_partial (a : Args) :
     (sp_trsv_agrees SLU_S a → check_sp_strsv a = specInfo_sp_trsv SLU_S a) ∧
@@ -283,7 +266,8 @@ theorem argchain_prelude_pure :
 theorem argchain_translated : translationFailures = [] := by decide
 
 /-! hypotheses of the partial theorems are satisfiable, and the specs are not vacuous -/
-example : gssvx_agrees SLU_D { A_nrow := 3, A_ncol := 3, A_Dtype := 1, B_ncol := 2, X_ncol := 2, B_Store_lda := 3, X_Store_lda := 3, B_Stype := 6, X_Stype := 6, B_Dtype := 1, X_Dtype := 1 } := by decide
+example : gsisx_agrees SLU_D { A_nrow := 3, A_ncol := 3, A_Dtype := 1, B_ncol := 2, X_ncol := 2, B_Store_lda := 3, X_Store_lda := 3, B_Stype := 6, X_Stype := 6, B_Dtype := 1, X_Dtype := 1 } := by decide
+example : gsisx_agrees SLU_D { A_nrow := 3, A_ncol := 3, A_Dtype := 1, B_ncol := 0, X_ncol := 0, B_Store_lda := 3, X_Store_lda := 3, B_Stype := 6, X_Stype := 6, B_Dtype := 1, X_Dtype := 1 } := by decide
 example : sp_trsv_agrees SLU_D { L_Stype := 3, L_Dtype := 1, L_Mtype := 1, U_Stype := 0, U_Dtype := 1, U_Mtype := 4, uplo_ch := 76, trans_ch := 78, diag_ch := 85 } := by decide
 example : sp_gemv_agrees SLU_D { A_Dtype := 1 } := by decide
 example : specInfo_gstrs SLU_D { L_nrow := 3, L_ncol := 3, L_Stype := 3, L_Dtype := 1, L_Mtype := 1, U_nrow := 3, U_ncol := 3, U_Dtype := 1, U_Mtype := 4, B_Store_lda := 3, B_Stype := 6, B_Dtype := 1 } = 0 := by decide
